@@ -193,6 +193,9 @@ class C20(Base):
         if out != exp:
             return "output %s != reference %s" % (d["ok"], hx(exp))
         mv, nv = d.get("m", "na"), d.get("n", "na")
+        for f in (mv, nv):
+            if f.startswith("WRITE-DIFFERS"):
+                return "write_pattern and format_pattern disagree under set_transform: " + f[:80]
         if mv != "na" and mv != d["ok"]:
             return "through set_transform (single text element) %s != direct %s" % (mv, d["ok"])
         if nv != "na" and unhx(nv) != out.encode("utf-8") + b"|" + out.encode("utf-8"):
